@@ -13,6 +13,8 @@ struct State {
     uint64_t fail_at = 0;          // make the k-th allocation (1-based, since reset) throw std::bad_alloc; 0 = never
     uint64_t failed = 0;           // how often that happened
     bool tracking = false;
+    bool fill = false;             // fresh memory is filled with fill_byte (makes reads of uninitialised heap memory deterministic and variable)
+    unsigned char fill_byte = 0;
 };
 State& state();
 void reset();
